@@ -165,3 +165,84 @@ func genFloatPair(t *rapid.T, cx *h.Ctx, disjointMembers, small bool) PairCase {
 	}
 	return PairCase{A: a, B: b, Family: "general+float"}
 }
+
+// genConcurrentPair: three to fourteen integer-endpoint segments that all pass through one common point P = (a/q, b/q)
+// which is NOT a lattice point: exactly concurrent edges whose pairwise crossing points, computed separately
+// in float64, differ in the last bits and have to be merged into one node.  q odd (3..13): P is not
+// representable; q a power of two: P is a dyadic point, i.e. it sits exactly on the boundary of the
+// power-of-two sized node buckets, so that the rounded crossings fall on both sides of it.  The segments are split
+// between the two operands (some in both); optionally one operand also carries a polygon around P or a point.
+// Endpoints: A_i a random lattice point, B_i a lattice point of the ray from A_i through P beyond P; |c| <= 1024.
+func genConcurrentPair(t *rapid.T, disjointMembers bool) PairCase {
+	q := rapid.SampledFrom([]int{2, 2, 4, 4, 8, 16, 64, 3, 5, 7, 11, 13}).Draw(t, "cq")
+	a := rapid.IntRange(-300*q, 300*q).Draw(t, "ca")
+	b := rapid.IntRange(-300*q, 300*q).Draw(t, "cb")
+	if a%q == 0 && b%q == 0 {
+		a++ // keep P off the lattice
+	}
+	n := rapid.IntRange(3, 14).Draw(t, "cn") // many lines: each further crossing point is another chance to land in a neighbouring node bucket
+	type seg struct{ ax, ay, bx, by int }
+	var segs []seg
+	for i := 0; i < n; i++ {
+		w := min(300, 1000/q) // start points near P, or the primitive step towards P is too long for |c| <= 1024
+		ax, ay := a/q+rapid.IntRange(-w, w).Draw(t, "cax"), b/q+rapid.IntRange(-w, w).Draw(t, "cay")
+		dx, dy := a-q*ax, b-q*ay
+		if dx == 0 && dy == 0 {
+			continue
+		}
+		// the line from A towards P continues in primitive integer steps (u,v); P is reached after g/q steps,
+		// which is not an integer in general, and B is any later lattice point: the parameter of P on the
+		// segment, g/(q j), is a generic rational
+		g := gcdInt(absInt(dx), absInt(dy))
+		u, v := dx/g, dy/g
+		j := g/q + 1 + rapid.IntRange(0, 40).Draw(t, "cj")
+		for j > g/q+1 && (absInt(ax+j*u) > 1024 || absInt(ay+j*v) > 1024) {
+			j--
+		}
+		if absInt(ax+j*u) > 1024 || absInt(ay+j*v) > 1024 {
+			continue
+		}
+		segs = append(segs, seg{ax, ay, ax + j*u, ay + j*v})
+	}
+	line := func(s seg) gm.G {
+		return gm.G{T: gm.LineString, Co: gm.Fs(float64(s.ax), float64(s.ay), float64(s.bx), float64(s.by))}
+	}
+	var la, lb []gm.G
+	for _, s := range segs {
+		switch rapid.IntRange(0, 4).Draw(t, "cside") {
+		case 0, 1:
+			la = append(la, line(s))
+		case 2, 3:
+			lb = append(lb, line(s))
+		default:
+			la, lb = append(la, line(s)), append(lb, line(s))
+		}
+	}
+	mk := func(ls []gm.G, l string) gm.G {
+		switch {
+		case len(ls) == 0:
+			return gm.G{T: gm.Point, Co: gm.Fs(float64(rapid.IntRange(-3, 3).Draw(t, l+"px")), float64(rapid.IntRange(-3, 3).Draw(t, l+"py")))}
+		case len(ls) == 1 && rapid.Bool().Draw(t, l+"single"):
+			return ls[0]
+		}
+		g := gm.G{T: gm.MultiLineString, Mem: ls}
+		// members of a collection must be pairwise disjoint for C02: concurrent lines are not, so no collection there
+		if !disjointMembers && rapid.IntRange(0, 3).Draw(t, l+"poly") == 0 {
+			r := float64(rapid.IntRange(4, 9).Draw(t, l+"r"))
+			sq := gm.G{T: gm.Polygon, Rings: [][]gm.F{gm.Fs(-r, -r, r, -r, r, r, -r, r, -r, -r)}}
+			return gm.G{T: gm.GeometryCollection, Mem: []gm.G{g, sq}}
+		}
+		return g
+	}
+	return PairCase{A: mk(la, "A"), B: mk(lb, "B"), Family: "concurrent"}
+}
+
+func gcdInt(a, b int) int {
+	for b != 0 {
+		a, b = b, a%b
+	}
+	if a == 0 {
+		return 1
+	}
+	return a
+}
